@@ -143,6 +143,9 @@ struct Plan {
     exit_mode: u8, // 0 none, 1 at ThreadsEnumerated (SIGCONT first), 2 StopProcess failspot + ThreadsEnumerated, 3 at BeforeAttach(tid)
     delay_at: Option<u32>,
     null_sp: bool,
+    /// the dumping thread is interrupted by signals (handler without SA_RESTART) while it attaches
+    /// to threads that keep running (group stop disabled) under CPU contention
+    storm: bool,
 }
 
 pub fn run(rep: &mut Report, thorough: bool) {
@@ -163,8 +166,12 @@ pub fn run(rep: &mut Report, thorough: bool) {
                 exit_mode: if exiters == 0 { 0 } else { 1 + rng.below(3) as u8 },
                 delay_at: if r % 2 == 0 { Some(delay_cursor) } else { None },
                 null_sp: n >= 3 && rng.chance(1, 2),
+                storm: false,
             });
         }
+    }
+    for k in 0..(if thorough { 60 } else { 6 }) {
+        plans.push(Plan { n: [5usize, 20, 33][k % 3], exiters: 0, exit_mode: 0, delay_at: None, null_sp: false, storm: true });
     }
     for plan in plans {
         let mut b = Builder::new();
@@ -217,7 +224,7 @@ pub fn run(rep: &mut Report, thorough: bool) {
             let s = b.truth(si).unwrap();
             o.app_memory.push((s.app_word, 8));
         }
-        if plan.exit_mode == 2 {
+        if plan.exit_mode == 2 || plan.storm {
             o.failspots.push("StopProcess".into());
         }
         // ---- hook: place the exits / delays
@@ -286,7 +293,32 @@ pub fn run(rep: &mut Report, thorough: bool) {
                 _ => {}
             }
         })));
+        let burn_stop = Arc::new(std::sync::atomic::AtomicBool::new(false));
+        let burners: Vec<std::thread::JoinHandle<()>> = if plan.storm {
+            (0..crate::util::threads() + 4)
+                .map(|_| {
+                    let st = burn_stop.clone();
+                    std::thread::spawn(move || {
+                        while !st.load(std::sync::atomic::Ordering::Relaxed) {
+                            std::hint::spin_loop();
+                        }
+                    })
+                })
+                .collect()
+        } else {
+            Vec::new()
+        };
+        let storm = if plan.storm { Some(crate::util::Storm::start(60)) } else { None };
         let (out, _) = dump::dump(&o);
+        if let Some(st) = storm {
+            let (sent, _) = st.stop();
+            rep.count("tracer_storm_signals_sent_to_the_dumping_thread", sent);
+            rep.count("dumps_under_tracer_storm", 1);
+        }
+        burn_stop.store(true, std::sync::atomic::Ordering::SeqCst);
+        for h in burners {
+            let _ = h.join();
+        }
         verif_hooks::set_sync(None);
         drop(_g);
         let evs = events.lock().unwrap().clone();
@@ -411,4 +443,5 @@ pub fn run(rep: &mut Report, thorough: bool) {
     rep.require("vanished_threads_checked", 1);
     rep.require("null_sp_threads_checked", 1);
     rep.require("odd_sp_threads", 3);
+    rep.require("dumps_under_tracer_storm", 3);
 }
